@@ -337,6 +337,15 @@ func mutate(t *rapid.T, fs []wfield, kind string, i int) ([]wfield, func([]byte)
 	case "fieldnumber":
 		if j := pick(anyF); j >= 0 {
 			fs[j].num = rapid.SampledFrom([]int{0, 1, 2, 3, 4, 5, 6, 7, 8, 15, 16, 1 << 20}).Draw(t, fmt.Sprintf("m%d_num", i))
+			// aliases of the expected key modulo 2^32 / 2^16 / 2^8 of the KEY varint (field number + k*2^29 etc.): a reader that narrows the
+			// key would take them for the canonical one (seed regression: seeded C08-e was no longer met by any generated field number)
+			if a := rapid.IntRange(0, 5).Draw(t, fmt.Sprintf("m%d_alias", i)); a > 0 {
+				orig := j + 1
+				if orig > 7 {
+					orig = 7
+				}
+				fs[j].num = orig + []int{0, 1 << 29, 2 << 29, 1 << 13, 1 << 5, 7 << 29}[a]
+			}
 		}
 	case "string_nonNFC":
 		if j := pick(func(f wfield) bool { return f.num <= 2 && f.wt == 2 }); j >= 0 {
